@@ -28,7 +28,7 @@ fn spec(tier: Tier) -> CheckSpec {
 	CheckSpec {
 		property: "C08",
 		level: "exploration",
-		rule: "exhaustive: (small) 12 small base arrays (literal, empty, range, makeArray, string chars, bytes, comprehension, object values, lazily failing element, ...) x every composition of depth <= 2 over the full operation menu (slices a[s:e:t] with s,e in {absent,-1,0,1,2,4} and t in {absent,1,2,3}, std.slice, reverse, repeat 0..3, concatenation on both sides with a literal / a range / a 1000-element range, map, mapWithIndex, filter x3, removeAt x5, flattenArrays, sort, set, join, comprehension copy, makeArray copy, flatMap, filterMap) and depth 3 over a 25-instance reduced menu (thorough: depth 3 full on 4 bases, depth 4 reduced); \
+		rule: "exhaustive: (small) 12 small base arrays (literal, empty, range, makeArray, string chars, bytes, comprehension, object values, lazily failing element, ...) x every composition of depth <= 2 over the full operation menu (slices a[s:e:t] with s,e in {absent,-9,-1,0,1,2,4} and t in {absent,1,2,3}, std.slice, reverse, repeat 0..3, concatenation on both sides with a literal / a range / a 1000-element range, map, mapWithIndex, filter x3, removeAt x5, flattenArrays, sort, set, join, comprehension copy, makeArray copy, flatMap, filterMap) and depth 3 over a 25-instance reduced menu (thorough: depth 3 full on 4 bases, depth 4 reduced); \
 			(big) bases of 999/1000/1001 elements x depth <= 2 over the reduced menu. Probes on every composed array: a[i] for i = -2..8, len-1, len, len+1, len+2, 0.5, 999..1001; length; equality and ordering against a comprehension copy in both directions; toString; comprehension; foldl; reverse[0]; map; concatenation with []; manifestation. Oracle: reference interpreter (arrays are plain vectors). \
 			non-trivial = distinct composed expression; failing compositions are shrunk (operations removed) and the minimal composition keys the class"
 			.into(),
@@ -84,7 +84,7 @@ fn op(name: &str, f: impl Fn(Ex) -> Ex + 'static) -> Op {
 
 pub fn menu_full() -> Vec<Op> {
 	let mut m: Vec<Op> = Vec::new();
-	let bounds: Vec<Option<f64>> = vec![None, Some(-1.0), Some(0.0), Some(1.0), Some(2.0), Some(4.0)];
+	let bounds: Vec<Option<f64>> = vec![None, Some(-9.0), Some(-1.0), Some(0.0), Some(1.0), Some(2.0), Some(4.0)];
 	let steps: Vec<Option<f64>> = vec![None, Some(1.0), Some(2.0), Some(3.0)];
 	for s0 in &bounds {
 		for s1 in &bounds {
